@@ -114,7 +114,7 @@ def decision_table(f, body, kt_classes, new_name='new', old_name='old', kt_name=
     return table, sx, names, outs
 
 
-def run(ctx):
+def _run_rules(ctx):
     rep, f = ctx.rep, ctx.facts
     rep.trust('pk/sym.py, pk/absval.py IEEE class arithmetic; rand: Rng::gen::<f64>() is Standard-uniform on [0,1)')
     rep.assume('scores of valid states are finite')
@@ -280,7 +280,7 @@ def run(ctx):
     rep.analysed |= sub.rep.analysed
     # argument roles
     old_l = oa.arg_local(oa.dec_args['old'])
-    kt_l = oa.arg_local(oa.dec_args['kt'])
+    kt_l = oa.arg_local(oa.dec_args['kt'], scope='outer')
     rep.check(old_l is not None and kt_l is not None and old_l != kt_l, 'R4', 'old-and-kt-are-locals', where(b, oa.decision_bb),
               'old=_%s kt=_%s' % (old_l, kt_l), 'cannot resolve the old/kt arguments of the decision', 'undecidable-shape')
     if kt_l is not None:
@@ -304,5 +304,12 @@ def _zero_temperature_reaches_decision_as_zero(ctx, oa):
     if not rep.check(fams is not None, 'R5', 'anchor:builder', where(bb) if bb else 'optimisation', 'evaluated', err or '',
                      'anchor-lost' if bb is None else 'undecidable-shape'):
         return
-    kt_l = oa.arg_local(oa.dec_args['kt'])
+    kt_l = oa.arg_local(oa.dec_args['kt'], scope='outer')
     zero_stays_zero(ctx, oa, fams, bb, kt_l, 'R5', 'R5', key_prefix='kT-argument-at-kt_start=0:')
+
+
+def run(ctx):
+    _run_rules(ctx)
+    # R7: the temperature asked for through the builder is the one the rule is applied at (setter fidelity)
+    from .common import builder_setters
+    builder_setters(ctx, 'R7', ['kt_start', 'kt_finish', 'kt_ratio'])
